@@ -162,6 +162,8 @@ class PathState:
             return d[1]
         if d[0] == 'discr':
             x = strip(d[1])
+            if x[0] == 'call' and x[1].endswith('::from_residual'):
+                return 1        # the value built from a residual is Err(..) / None-like: discriminant 1 for Result and for ControlFlow::Break
             if x[0] == 'agg' and len(x) > 5 and x[5] is not None:
                 adt = x[1]
                 if adt in ('std::result::Result', 'std::option::Option', 'std::ops::ControlFlow'):
